@@ -150,6 +150,64 @@ class Inliner:
                 return None
         return agg["closure"], cfact, ops
 
+    # `opt.is_some_and(f)` = match opt { Some(x) => f(x), None => false };  `opt.is_none_or(f)` = .. None => true
+    OPTION_PREDICATES = {"Option::<T>::is_some_and": 0, "Option::<T>::is_none_or": 1}
+
+    def _desugar_option_predicate(self, out, blk, t):
+        """A call of an Option predicate combinator on a closure literal / function item is replaced by the match it stands for
+        (the call of `f` is then an ordinary call that the inliner takes in). Returns the blocks to revisit, or None."""
+        f = t.get("func") or {}
+        decl = f.get("fn_path") or ""
+        none_value = next((v for k, v in self.OPTION_PREDICATES.items() if decl.endswith(k)), None)
+        if none_value is None or len(t.get("args", [])) != 2 or t.get("target") is None:
+            return None
+        opt, fn = t["args"]
+        if opt.get("k") not in ("copy", "move"):
+            return None
+        m = out["mir"]
+        sp = t.get("sp")
+        callee = None
+        if fn.get("k") == "const" and fn.get("fn_path"):
+            callee = ("fn", fn)
+        elif fn.get("k") in ("copy", "move"):
+            os_ = M.trace(M.Body(out), fn, M.IDENTITY_CALLS)
+            if len(os_) == 1 and os_[0].kind == "aggregate" and os_[0].rv.get("closure") and not os_[0].proj:
+                callee = ("closure", fn)
+        if callee is None:
+            return None
+
+        def local(ty):
+            m["locals"].append({"i": len(m["locals"]), "ty": ty, "user": False, "from": "desugared " + decl.rsplit("::", 1)[-1]})
+            return len(m["locals"]) - 1
+
+        def block(stmts, term):
+            m["blocks"].append({"i": len(m["blocks"]), "stmts": stmts, "term": term, "from": blk.get("from")} if blk.get("from") else
+                               {"i": len(m["blocks"]), "stmts": stmts, "term": term})
+            return len(m["blocks"]) - 1
+
+        payload_ty = (f.get("gargs") or ["?"])[0]
+        d, x = local("isize"), local(payload_ty)
+        opt_place = copy.deepcopy(opt["p"])
+        some_place = copy.deepcopy(opt["p"])
+        some_place["proj"] = list(some_place.get("proj") or []) + [{"downcast": "Some"}, {"f": "0", "i": 0, "v": "Some"}]
+        none_bb = block([{"k": "assign", "p": copy.deepcopy(t["dest"]), "rv": {"k": "use", "op": {"k": "const", "ty": "bool", "bits": none_value, "text": "true" if none_value else "false"}}, "sp": sp}],
+                        {"k": "goto", "target": t["target"], "sp": sp})
+        take = [{"k": "assign", "p": {"l": x}, "rv": {"k": "use", "op": {"k": opt["k"], "p": some_place}}, "sp": sp}]
+        if callee[0] == "fn":
+            some_bb = block(take, {"k": "call", "func": copy.deepcopy(fn), "args": [{"k": "move", "p": {"l": x}}], "dest": copy.deepcopy(t["dest"]),
+                                   "target": t["target"], "sp": sp, "fn_sp": t.get("fn_sp")})
+        else:
+            tup, r = local("(" + payload_ty + ",)"), local("&closure")
+            take.append({"k": "assign", "p": {"l": tup}, "rv": {"k": "aggregate", "ak": "tuple", "ops": [{"k": "move", "p": {"l": x}}]}, "sp": sp})
+            take.append({"k": "assign", "p": {"l": r}, "rv": {"k": "ref", "bk": "Shared", "p": copy.deepcopy(fn["p"])}, "sp": sp})
+            some_bb = block(take, {"k": "call", "func": {"k": "const", "ty": "desugared", "fn_path": "std::ops::Fn::call", "gargs": [], "text": "Fn::call"},
+                                   "args": [{"k": "move", "p": {"l": r}}, {"k": "move", "p": {"l": tup}}], "dest": copy.deepcopy(t["dest"]),
+                                   "target": t["target"], "sp": sp, "fn_sp": t.get("fn_sp")})
+        blk["stmts"].append({"k": "assign", "p": {"l": d}, "rv": {"k": "discr", "p": opt_place}, "sp": sp})
+        blk["term"] = {"k": "switch", "discr": {"k": "move", "p": {"l": d}}, "targets": [[1, some_bb]], "otherwise": none_bb, "sp": sp,
+                       "desugared": decl}
+        return [some_bb]
+
     def _callee_fact(self, t):
         f = t.get("func") or {}
         if f.get("k") != "const":
@@ -179,6 +237,11 @@ class Inliner:
             t = blk.get("term") or {}
             if t.get("k") != "call" or depth >= self.max_depth or len(m["blocks"]) > self.max_blocks:
                 continue
+            if self.closures:
+                again = self._desugar_option_predicate(out, blk, t)
+                if again is not None:
+                    work.extend((b, depth) for b in again)
+                    continue
             p, cb = self._callee_fact(t)
             call_args = t.get("args", [])
             awaited = None
